@@ -60,10 +60,4 @@ Utf8Decode(os) ==
     IF os = <<>> THEN <<>>
     ELSE LET n == WfLen(os) IN <<Scalar(os, n)>> \o Utf8Decode(Drop(os, n))
 
-(* length of the percent-encoded view: one per %XX triple or character *)
-RECURSIVE PctLen(_)
-PctLen(w) ==
-    IF w = <<>> THEN 0
-    ELSE IF w[1] = cPCT /\ Len(w) >= 3 /\ IsHexC(w[2]) /\ IsHexC(w[3]) THEN 1 + PctLen(Drop(w, 3))
-    ELSE 1 + PctLen(Tail(w))
 =============================================================================
